@@ -111,18 +111,18 @@ def run_impl(case):
         if api == "shift":
             lens = torch.tensor(case["lens"], dtype=torch.long)
             p0, p1 = (float(Fraction(p)) for p in case["prop"])
-            if p0 == p1 and not case.get("functional"):
-                layer = PM.RandomShift(p0, case["mode"], float(case["value"]))
-                layer.train(case["training"])
-            else:
-                # RandomShift.__init__ cannot take a pair (argcheck.is_float raises ValueError, the code expects
-                # TypeError), so two different proportions go through the functional form; its constructor
-                # checks are replayed here so that the outcome is the one the layer would give
+            if case.get("functional"):
+                # the functional form has no constructor: RandomShift.__init__'s checks are replayed here so that
+                # the outcome is the one the layer gives
                 if p0 < 0 or p1 < 0:
                     raise ValueError("prop values must be non-negative")
                 if case["mode"] == "reflect" and (p0 > 1.0 or p1 > 1.0):
                     raise NotImplementedError("reflect")
                 layer = lambda a, b: PF.random_shift(a, b, (p0, p1), case["mode"], float(case["value"]), case["training"])
+            else:
+                prop = p0 if (p0 == p1 and case.get("single_prop")) else (p0, p1)
+                layer = PM.RandomShift(prop, case["mode"], float(case["value"]))
+                layer.train(case["training"])
             u = torch.tensor([[float(Fraction(v)) for v in case["u0"]],
                               [float(Fraction(v)) for v in case["u1"]]], dtype=torch.float32)
 
@@ -359,6 +359,10 @@ def exhaustive_cases(tier):
                         if not thorough and (us.index(u0) + us.index(u1) + ln + props.index(p0)) % 3:
                             continue
                         c = shift_case(2, T, [], [ln, T], mode, (p0, p1), True, [u0, u1], [u1, u0])
+                        if (us.index(u0) + props.index(p1) + T) % 2:
+                            c["functional"] = True
+                        elif p0 == p1 and us.index(u1) % 2:
+                            c["single_prop"] = True
                         c["stream"] = "exhaustive"
                         cases.append(c)
     return cases
@@ -392,6 +396,12 @@ def corner_cases():
         cs.append(dict(shift_case(2, 4, [], [4, 2], mode, ("1/2", "1/2"), True, ["3/4", "3/4"], ["1/2", "1/4"]), functional=True))
         cs.append(shift_case(2, 4, [], [4], mode, ("1/2", "1/2"), True, ["3/4", "3/4"], ["1/2", "1/4"]))  # lens shape
         cs.append(shift_case(1, 4, [], [4], mode, ("2", "5/2"), True, ["3/4"], ["1/2"]))
+        for pair in (("0", "1/2"), ("1/2", "0"), ("1/4", "1"), ("1", "1/4")):
+            for fn in (False, True):
+                c = shift_case(2, 4, [], [4, 4], mode, pair, True, ["1023/1024", "3/4"], ["1023/1024", "3/4"])
+                if fn:
+                    c["functional"] = True
+                cs.append(c)
     for bf in (True, False):
         cs.append(masked_case(0, 3, [], [], bf))
         cs.append(masked_case(2, 0, [], [[], []], bf))
@@ -465,8 +475,10 @@ def random_cases(rng, n):
             us = lambda: [rng.choice([Fraction(0), Fraction(1023, 1024), Fraction(rng.randint(0, 1023), 1024),
                                       Fraction(rng.randint(0, 7), 8)]) for _ in range(N)]
             c = shift_case(N, T, rest, lens, mode, prop, rng.random() < 0.85, us(), us(), **kw)
-            if prop[0] == prop[1] and rng.random() < 0.3:
+            if rng.random() < 0.4:
                 c["functional"] = True
+            elif prop[0] == prop[1] and rng.random() < 0.5:
+                c["single_prop"] = True
         if api != "shift" and rng.random() < 0.15:
             c["module"] = True
         c["stream"] = "random"
@@ -588,7 +600,7 @@ def _cands(case):
         c["rest"] = []
         c["x"] = [[[cell[0]] for cell in row] for row in c["x"]]
         yield c
-    for k in ("module", "functional"):
+    for k in ("module", "functional", "single_prop"):
         if case.get(k):
             c = dict(case)
             c.pop(k)
@@ -628,16 +640,6 @@ def judge(chk, case, out):
     return rec, spec_ok
 
 
-def known_sig(entry, rec):
-    """known-findings signature: {"api": "chunk_by_slices", "T": 0}: the early return for T == 0."""
-    sig = entry.get("signature", {})
-    case = rec.get("case", {})
-    if sig.get("api") == "chunk_by_slices" and sig.get("T") == 0:
-        return (case.get("api") == "chunk" and case.get("T") == 0 and case.get("N", 0) > 0
-                and rec.get("impl", [None])[0] == "ok" and all(v == 0 for v in rec["impl"][1][1]))
-    return False
-
-
 def run(chk, cases=None):
     chk.rule = ("case = (api in pad_variable/chunk_by_slices/pad_masked_sequence/RandomShift, x of shape (N,T,*rest) with a "
                 "distinct integer payload per cell, lens, pads or slices or mask or (prop, training, patched torch.rand_like "
@@ -674,6 +676,11 @@ def run(chk, cases=None):
         if "mode" in c:
             chk.count("mode=" + c["mode"])
         chk.count("outcome=" + ("ok" if out[0] == "ok" else "err%d" % out[1]))
+        if c["api"] == "shift":
+            p0, p1 = (Fraction(p) for p in c["prop"])
+            chk.count("shift=" + ("functional" if c.get("functional") else "module")
+                      + ("/left>right" if p0 > p1 else "/left<right" if p0 < p1 else "/equal")
+                      + ("" if c["training"] else "/eval"))
         chk.count("N=%d" % c["N"])
         chk.count("T=%d" % c["T"])
         if c["api"] == "chunk":
@@ -697,17 +704,6 @@ def run(chk, cases=None):
             chk.report({"case": cases[i], "impl": outs[i], "what": "metamorphic: " + m["what"],
                         "sub_case": m["sub"], "sub_impl": m["sub_out"]})
     chk.extra["metamorphic_cases"] = nmeta
-    # faithful-model deviations from the property text that are known: judged by the spec on every case
-    # of the affected region (chunk_by_slices with T = 0)
-    t0 = [i for i, c in enumerate(cases) if c["api"] == "chunk" and c["T"] == 0 and c["N"] > 0 and i not in bad]
-    if t0:
-        sres = coq_eval_bools(chk.workdir, IMPORTS, [spec_term(cases[i], outs[i]) for i in t0], tag="t0")
-        for i, ok in zip(t0, sres):
-            if not ok:
-                rec, _ = judge(chk, cases[i], outs[i])
-                rec["what"] = ("chunk_by_slices returns zero lengths for every row when T == 0 (early return), although "
-                               "a non-empty slice of a length-0 sequence in constant mode has the requested length")
-                chk.report(rec, known_sig)
     found_concrete = False
     for i in bad[:6]:
         case = shrink(cases[i], lambda c: _fails(chk, c), _cands, budget=30)
@@ -715,19 +711,19 @@ def run(chk, cases=None):
         rec, spec_ok = judge(chk, case, out)
         if not spec_ok:
             found_concrete = True
-            chk.report(rec, known_sig)
+            chk.report(rec)
         else:
             # the shrunk case may have lost the spec-level failure: judge the original too
             rec0, ok0 = judge(chk, cases[i], outs[i])
             if not ok0:
                 found_concrete = True
-                chk.report(rec0, known_sig)
+                chk.report(rec0)
     if bad and not found_concrete:
         sres = coq_eval_bools(chk.workdir, IMPORTS, [spec_term(cases[i], outs[i]) for i in bad], tag="specall")
         hit = [bad[j] for j, ok in enumerate(sres) if not ok]
         if hit:
             rec, _ = judge(chk, cases[hit[0]], outs[hit[0]])
-            chk.report(rec, known_sig)
+            chk.report(rec)
         else:
             rec, _ = judge(chk, cases[bad[0]], outs[bad[0]])
             chk.report(rec, no_failing_input=True)
